@@ -227,6 +227,12 @@ def population_case(ctx, rng, idx):
             leaves[i] = GP.make_leaf('L', l.n_dim, l.centered,
                                      l.cov['n_cov'] if l.cov else 0,
                                      None, n_last)
+    t_mixed = idx % 8 == 5
+    if t_mixed:
+        # one truncated Gaussian over all parameters, whose dimensions are
+        # in different regimes (means far above zero next to means close to
+        # zero)
+        leaves = [GP.make_leaf('T', n_dim)]
     h = Hierarchy(leaves, n_last)
     codes = [GP.leaf_code(l) for l in leaves]
     pop = GP.build_chi(leaves, n_last)
@@ -236,7 +242,15 @@ def population_case(ctx, rng, idx):
         pop.set_n_ids(n_last)        # as a likelihood / controller would
     ppm = chi.PopulationPredictiveModel(pm, pop)
     top = np.concatenate([GP.leaf_top(rng, l, n_last) for l in leaves])
+    if t_mixed:
+        sd_ = rng.uniform(0.3, 1.0, n_dim)
+        ratio = rng.uniform(0.0, 1.5, n_dim)
+        far = rng.permutation(n_dim) < int(rng.integers(1, n_dim))
+        ratio[far] = rng.uniform(10, 25, int(np.sum(far)))
+        top = np.concatenate([sd_ * ratio, sd_])
     n = [1, 2, 3, 7, 40, 300][int(rng.integers(6))]
+    if t_mixed:
+        n = max(n, 40)
     if n == n_last and stale:
         n += 1
     times = rng.permutation(np.array([0.4, 0.9, 1.3, 2.2]))[
@@ -315,6 +329,14 @@ def population_case(ctx, rng, idx):
                         ctx.violation('patients_follow_population_model',
                                       'heterogeneous_patient_not_a_row',
                                       {'dim': idim}, feats)
+                continue
+            # support: log-normal and truncated Gaussian patients are
+            # positive whatever the sample size
+            if l.centered and np.any(col < 0):
+                ctx.violation('patients_follow_population_model',
+                              'patient_outside_support:' + l.kind,
+                              {'dim': idim + d, 'min': float(col.min()),
+                               'n_negative': int(np.sum(col < 0))}, feats)
                 continue
             if n < 300:
                 continue
